@@ -271,6 +271,48 @@ def large_block(case):
             "sample": {"family": family, "K": K, "n": n, "affinity": tag, "targets": [t[0] for t in targets]}}
 
 
+def container_case(case):
+    """The data may come in any numeric container: count data stored as (un)signed 8/16/32/64-bit integers, float32, nested lists, Fortran order,
+    read-only, strided views.  The affinity and the score are those of the float64 copy (to single precision for float32 data)."""
+    family, tag, form, n, seed = case
+    rs = np.random.RandomState(50_000 + seed + n)
+    Xi = rs.randint(0, 120, size=(n, 3))                        # products of two entries exceed the range of 8 and 16 bit integers
+    if family == "mmd":
+        kw, _, A_ref = aff.kernel_reference(tag, Xi.astype(float), seed)
+    else:
+        kw, _, A_ref = aff.metric_reference(tag, Xi.astype(float), seed)
+    big = np.zeros((2 * n, 6))
+    big[::2, ::2] = Xi
+    ro = Xi.astype(float)
+    ro.setflags(write=False)
+    Xin = {"uint8": Xi.astype(np.uint8), "int8": (Xi - 60).astype(np.int8), "int16": Xi.astype(np.int16), "int32": Xi.astype(np.int32), "int64": Xi.astype(np.int64),
+           "float32": Xi.astype(np.float32), "list": Xi.tolist(), "fortran": np.asfortranarray(Xi.astype(float)), "readonly": ro, "strided": big[::2, ::2]}[form]
+    if form == "int8":
+        A_ref = (aff.kernel_reference(tag, (Xi - 60).astype(float), seed) if family == "mmd" else aff.metric_reference(tag, (Xi - 60).astype(float), seed))[2]
+    P = rs.dirichlet(np.ones(3), size=n)
+    v = []
+    rtol = 1e-5 if form == "float32" else 1e-12
+    for label, dist, mode, factory in _targets(family, kw, tag in ("linear", "euclidean")):
+        g = factory()
+        where = dict(target=label, dist=dist, mode=mode, K=3, n=n, via="container:" + form)
+        try:
+            A = np.asarray(g.compute_affinity(Xin), dtype=float)
+            got = float(g(P.copy(), g.compute_affinity(Xin)))
+            got2 = float(_stub(P, label[5:] if label.startswith("name:") else g).score(Xin))
+        except Exception as e:  # noqa
+            v.append(violation("score_mismatch", {"target": label, "container": form, "affinity": tag, "error": repr(e)[:200]}, **where))
+            continue
+        expected, slack = ref.ref_score_slack(P, A_ref, dist, mode)
+        scale = float(np.abs(A_ref).max())
+        if A.shape != A_ref.shape or not np.allclose(A, A_ref, rtol=rtol, atol=rtol * scale):
+            v.append(violation("affinity_depends_on_the_container_of_the_data", {"target": label, "container": form, "affinity": tag, "got": A[:2, :3], "expected": A_ref[:2, :3]}, **where))
+        for gval in (got, got2):
+            if not abs(gval - expected) <= ref.tol(dist, expected, slack, None) + (1e-4 * max(1.0, abs(expected)) if form == "float32" else 0.0):
+                v.append(violation("score_mismatch", {"target": label, "container": form, "affinity": tag, "got": gval, "expected": expected}, **where))
+                break
+    return {"v": v[:6], "nt": [case], "stats": {"evals": 3}, "sample": {"family": family, "affinity": tag, "container": form}}
+
+
 def explorers(tier, seed):
     thorough = tier == "thorough"
     gseed = 1000 + seed
@@ -312,7 +354,13 @@ def explorers(tier, seed):
     c_big = [("fdiv", K, n, "none", seed, gseed + K + n) for K, n in big_f] + \
             [("mmd", K, n, tag, seed, gseed + K + n) for K, n in big_m for tag in ("linear", "rbf_g")] + \
             [("wasserstein", K, n, tag, seed, gseed + K + n) for K, n in big_w for tag in ("euclidean", "l1")]
+    forms = ["uint8", "int8", "int16", "int32", "int64", "float32", "list", "fortran", "readonly", "strided"]
+    c_cont = [("mmd", t_, f_, n_, seed) for t_ in ("linear", "rbf_g", "poly_p", "cosine", "sigmoid_nog") for f_ in forms for n_ in (4, 9)] + \
+             [("wasserstein", t_, f_, n_, seed) for t_ in ("euclidean", "l1", "cosine") for f_ in forms for n_ in (4, 9)]
     return [
+        Explorer("data_containers", "props.c01", "container_case", c_cont, chunk=8, floor=50,
+                 rule="named kernels and metrics on count data handed over as uint8, int8, int16, int32, int64, float32, nested lists, Fortran order, read-only "
+                      "and strided views: compute_affinity and the score (call and model.score) are those of the float64 copy (integer products must not wrap around)"),
         Explorer("large_shapes", "props.c01", "large_block", c_big, chunk=1, floor=8, case_timeout=1500,
                  rule="every target (registry name, class x ovo flag, model.score on a stub) on hundreds to thousands of samples and up to 64 clusters: "
                       "two seed-generic Dirichlet matrices and one near-hard unbalanced matrix per shape; score by plain call, with the gradient "
